@@ -109,7 +109,7 @@ Lemma witness2 :
   option_map norm (eval_ref (world_of calls2 []) wg2 true (2 * depth_list q2 + 4) "Query" 0%Z q2) = Some ans2 /\
   match flatten (2 * depth_list q2 + 4) false wg2 (RObj "Query") (Some q2) with
   | Some (Some flat) =>
-      match plan_root wg2 pick1 (2 * depth_list q2 + 4) flat with
+      match plan_root wg2 pick1 (2 * (2 * depth_list q2 + 4) + 2) flat with
       | Some (Plan _ _ _ _ [Plan _ "s1" _ _ subs]) => List.length subs = 2   (* one hop to s2 per union member *)
       | _ => False
       end
